@@ -12,9 +12,9 @@ from ..core import Violation, Outcome, HarnessError
 ID = 'C01'
 TITLE = 'merge-control tags never change the evaluated content of a single document'
 RULE = ('one mapping document (depth <=5, keys int/float/str incl. underscore, all five scalar types incl. awkward strings, block/flow, '
-        'quoting styles) with two independent random placements of !force/!weak/!del/!merge/!new/!unsafe/!metadata ({{..}} and :hex forms) '
+        'quoting styles incl. literal blocks, yaml anchors/aliases) with two independent random placements of !force/!weak/!del/!merge/!new/!unsafe/!metadata ({{..}} and :hex forms) '
         'on any node incl. the root and value-less nodes; non-trivial = a tag on a container that has a container grandchild, or an '
-        'underscore key, or a value-less tagged node; distinct = hash of the case')
+        'underscore key, or a value-less tagged node, or an alias; distinct = hash of the case')
 BUDGET = {'quick': (4, 500), 'thorough': (16, 10000)}
 ASSUMPTIONS = ['PyYAML SafeLoader on the tag-erased text defines the plain content',
                'strings containing "{{" and unquoted f-string look-alikes are not generated (documented text-level syntax)',
